@@ -132,36 +132,6 @@ theorem roundtrip_yaml (o : Options) (g : GenFull) (h : genFull o f t = .ok g)
 
 /-! ## rejection -/
 
-private theorem firstSome_none {α : Type} (l : List (Option α)) (h : ∀ x ∈ l, x = none) : firstSome l = none := by
-  induction l with
-  | nil => rfl
-  | cons x xs ih =>
-    have hx := h x (by simp)
-    subst hx
-    exact ih (fun y hy => h y (List.mem_cons_of_mem _ hy))
-
-private theorem stringTry_none (g : GenFull) (s : String) (h : ∀ ty, g.base.parse ⟨ty, .str s⟩ = none) :
-    stringTry g s = none := by
-  unfold stringTry
-  rw [show Dyn.ofString s = ⟨"string", .str s⟩ from rfl, h "string"]
-  apply firstSome_none
-  intro x hx
-  obtain ⟨t, _, rfl⟩ := List.mem_map.mp hx
-  exact h t.ty
-
-private theorem numericTry_none (g : GenFull) (signed : Bool) (x : Int) (h : ∀ ty, g.base.parse ⟨ty, .int x⟩ = none) :
-    numericTry {} g signed x = none := by
-  unfold numericTry
-  apply firstSome_none
-  intro y hy
-  obtain ⟨t, _, rfl⟩ := List.mem_map.mp hy
-  simp only []
-  generalize wrapTo signed _ x = w
-  by_cases hc : w = x
-  · subst hc; simp [h t.ty]
-  · have : (({} : Quirks).noRangeGuard || w == x) = false := by simp [hc]
-    rw [this]; rfl
-
 /-- JSON: a scalar document is rejected unless its own content — the string, resp. the integer,
 read at some type — is a constant of the `Parse` switch (a name, a name up to case under
 `-caseInsensitive`, or a parsable trait constant). Nothing else is ever mapped to a value. -/
